@@ -723,6 +723,9 @@ class VhdlScope:
 
                 for literal in literals:
                     assert (
+                        re.fullmatch(r"[A-Za-z](_?[A-Za-z0-9])*", literal) is not None
+                    ), f"enumerator '{literal}' of '{obj.__name__}' is not a valid VHDL identifier"
+                    assert (
                         literal.lower() not in used_names
                         or literal.lower() in enum_literals
                     ), f"enumerator '{literal}' of '{obj.__name__}' collides with a reserved name or another declaration"
@@ -731,7 +734,14 @@ class VhdlScope:
         used_names |= enum_literals
         self._enum_literals = enum_literals
 
-        for id, decl in declarations.items():
+        # design units keep their names, process them before
+        # the objects that might have to be renamed because of them
+        ordered_declarations = sorted(
+            declarations.items(),
+            key=lambda item: not isinstance(item[1].obj, (Entity, Architecture)),
+        )
+
+        for id, decl in ordered_declarations:
             obj = decl.obj
 
             name: str
@@ -780,6 +790,18 @@ class VhdlScope:
                 name = fallback
             else:
                 raise AssertionError("Internal error, cannot name object")
+
+            if isinstance(obj, (Entity, Architecture)):
+                # design units live in the namespace of the library, they are
+                # not renamed and do not collide with objects declared inside
+                assert (
+                    re.fullmatch(r"[A-Za-z](_?[A-Za-z0-9])*", name) is not None
+                    and name.lower() not in ModuleScope._vhdl_reserved
+                    and name.lower() not in ModuleScope._additional_reserved
+                ), f"'{name}' is not a valid name for a VHDL design unit"
+                decl.name = name
+                used_names.add(name.lower())
+                continue
 
             if isinstance(obj, Port):
                 # ports are part of the interface and cannot be renamed
